@@ -185,6 +185,7 @@ def run(ck):
 
     narrowing_len_sweep(ck, crate("rs", "concordium_base"), re.compile(r"concordium_base::(id::id_verifier|web3id)"), re.compile(r"(verify|verifier|validate|check)[a-z_0-9]*(::\{closure#\d+\})*$"))
     conditional_transcript_sweep(ck, crate("rs", "concordium_base"), re.compile(r"concordium_base::(id::id_verifier|id::identity_attributes_credentials|web3id)"), floor=5)
+    gated_verification_sweep(ck, crate("rs", "concordium_base"), re.compile(r"concordium_base::(id::id_verifier|id::identity_attributes_credentials|web3id)"), floor=15)
     eq_polarity_sweep(ck, crate("rs", "concordium_base"), re.compile(r"concordium_base::(id::id_verifier|id::identity_attributes_credentials|web3id)"), re.compile(r"(verify|verifier|validate|check)[a-z_0-9]*(::\{closure#\d+\})*$"))
     rejecting_checks_floor(ck, crate("rs", "concordium_base"), re.compile(r"concordium_base::(id::id_verifier|id::identity_attributes_credentials|web3id)"), re.compile(r"(verify|verifier|validate|check|extract_commit_message)[a-z_0-9]*(::\{closure#\d+\})*$"), "C18")
     material_rules(ck, crate("rs", "concordium_base"))
